@@ -2,7 +2,7 @@
 # try_seeded.sh <patch.diff> <tier> <property ids...>
 # applies a seeded change to /repo, runs the named checks without touching the evidence files, reverts /repo.
 patch=${1:?patch}; tier=${2:-quick}; shift 2
-cd /verif
+cd "$(dirname "${BASH_SOURCE[0]}")/.."
 if ! git -C /repo diff --quiet; then echo "refusing: /repo has uncommitted changes"; exit 2; fi
 if ! git -C /repo apply "$patch"; then echo "patch does not apply"; exit 2; fi
 trap 'git -C /repo checkout -- . ' EXIT
